@@ -1,12 +1,14 @@
 package c13
 
-// Self-tests of the execution mechanism (not part of the tiers; run with `go test -race -run 'TestMechanism' ./checks/c13`).
+// Self-tests of the execution mechanism (not part of the tiers; run with `go test -tags verif -race -run 'TestMechanism' ./checks/c13`).
 // They pin the facts the scheduler relies on, on the unchanged tree:
 //   * a caller that arrives while a download is blocked evaluates Done() on its own context exactly once, in the select of
 //     keysFromRemote (so Done()-count >= 1 <=> parked), and starts no download of its own;
 //   * the owner's download reaches the endpoint carrying the values of the owner's context (since the repair: not its cancellation);
 //   * the updateKeys span starts / ends once per download and ends after the cache was updated;
 //   * the same program yields the same outcome every time;
+//   * hold plans: the hook parks the goroutine of the download the release answered, after its waiters returned, and the
+//     schedule's unhold lets it finish (TestMechanismHold; accepts both orders of "free the slot" / "wake the waiters");
 //   * contexts that carry a deadline: the key set never asks for it (Deadline() evaluations = 0), the deadline of the caller
 //     that started the download passing while the endpoint is silent fails that caller alone.
 
